@@ -405,6 +405,8 @@ class Chain(Component):
     s.add_constraints( WR(s.stage[0].out) < U(up_obs), RD(s.stage[0].in_) > U(up_pre) )
     # ... and on a BLOCK of a child (when the child has one of that name)
     if pc: s.add_constraints( U(up_pre) < U(s.stage[0].get_update_block("up")) )
+    # ... and a block of a child ordered against the writers / readers of a SIGNAL: a port of that child, a signal of the parent
+    if pc: s.add_constraints( WR(s.stage[0].in_) < U(s.stage[0].get_update_block("up")), U(s.stage[0].get_update_block("up")) < RD(s.obs) )
     if lb is not None:
       # a registered stage wired back onto itself BY THE PARENT (a counter)
       s.lb = lb[0](k=lb[1]); s.lbo = OutPort(8)
